@@ -130,6 +130,51 @@ fn stage_probe_ids(job: &TsJob) -> Vec<(u32, u32, &TsStage)> {
     v
 }
 
+/// Progress across rounds (C17 inside loops): when every source replica of the deployment replays a
+/// script with at least one watermark, every consumer replica behind the first repartitioning of
+/// the body receives (by broadcast) a watermark of every upstream replica before that replica's
+/// end-of-round marker, so its frontier becomes defined in every round whatever the interleaving:
+/// it must observe at least one watermark in EVERY round, not only in the first.
+fn loop_progress(job: &TsJob, cfg: &ConfigSpec, g: &TsGroups) -> Result<(), String> {
+    let cores = cfg.layout.total_cores() as usize;
+    if job.replay_rounds == 0 || job.source.scripts.len() < cores {
+        return Ok(());
+    }
+    if !job.source.scripts.iter().take(cores).all(|s| s[0].iter().any(|x| matches!(x, Sx::Wm(_)))) {
+        return Ok(());
+    }
+    for (_, after, st) in stage_probe_ids(job) {
+        match st {
+            TsStage::Map | TsStage::Filter(..) | TsStage::FlatMap(_) | TsStage::Batch(_) | TsStage::RoundFilter => continue,
+            TsStage::Shuffle | TsStage::KeyedMap(_) => {
+                for ((p, loc), evs) in g.iter().filter(|((p, _), _)| *p == after) {
+                    let mut round = 0;
+                    let mut wms = 0;
+                    for e in evs {
+                        match e.kind {
+                            renoir::verif::ElemKind::Watermark => wms += 1,
+                            renoir::verif::ElemKind::FlushAndRestart => {
+                                if wms == 0 {
+                                    return Err(format!(
+                                        "probe {p} at {}: no watermark observed in round {round} of the loop although every upstream replica sent watermarks in that round (watermarks withheld)",
+                                        crate::obs::loc_str(*loc)
+                                    ));
+                                }
+                                wms = 0;
+                                round += 1;
+                            }
+                            _ => {}
+                        }
+                    }
+                }
+                return Ok(());
+            }
+            _ => return Ok(()),
+        }
+    }
+    Ok(())
+}
+
 /// Sub-run for the open known finding F4: exactly the triggering shape (a non-exact count window
 /// on a timestamped stream with watermarks).
 fn run_kf(ctx: &Ctx, report: &mut Report) {
@@ -209,7 +254,15 @@ fn run_mode(ctx: &Ctx, mode: Mode, report: &mut Report, cases: u32, stream: u64)
             // the non-exact variant is steered away from (open known finding F4)
             rep.excluded += 1;
         }
-        let cfgs: Vec<ConfigSpec> = (0..2).map(|_| gen_cfg(&mut ch)).collect();
+        let mut cfgs: Vec<ConfigSpec> = (0..2).map(|_| gen_cfg(&mut ch)).collect();
+        if mode == Mode::SafetyLoop {
+            // in half of the cases: a deployment in which every source replica has a script with
+            // watermarks, so that the progress clause below applies
+            let m = job.source.scripts.iter().take_while(|s| s[0].iter().any(|x| matches!(x, Sx::Wm(_)))).count();
+            if m >= 2 && ch.flag(1, 2) {
+                cfgs[0].layout = Layout::Local(2 + ch.below(m - 1) as u64);
+            }
+        }
         let mut nontrivial = None;
         for cfg in &cfgs {
             let n = counter.get();
@@ -245,6 +298,9 @@ fn run_mode(ctx: &Ctx, mode: Mode, report: &mut Report, cases: u32, stream: u64)
                             }
                         }
                         Err((_, message)) => return Case::Fail { message, replay },
+                    }
+                    if let Err(message) = loop_progress(&job, cfg, &g) {
+                        return Case::Fail { message, replay };
                     }
                     for (before, after, st) in stage_probe_ids(&job) {
                         if let TsStage::Reorder = st {
@@ -497,7 +553,7 @@ fn run(ctx: &Ctx, mode: &str) -> Report {
     let mut report = Report::default();
     match (ctx.id.as_str(), mode) {
         ("C06", "kf") => run_kf(ctx, &mut report),
-        ("C06", "loop") => run_mode(ctx, Mode::SafetyLoop, &mut report, ctx.cases(240, 6000), 5),
+        (_, "loop") => run_mode(ctx, Mode::SafetyLoop, &mut report, ctx.cases(240, 6000), 5),
         ("C06", _) => run_mode(ctx, Mode::Safety, &mut report, ctx.cases(500, 12000), 1),
         (_, "reorder") => run_mode(ctx, Mode::Reorder, &mut report, ctx.cases(240, 6000), 2),
         (_, "reorder_iter") => run_mode(ctx, Mode::ReorderIter, &mut report, ctx.cases(240, 6000), 4),
@@ -539,6 +595,7 @@ pub fn replay_ts(ctx: &Ctx, v: &Value) -> Result<String, String> {
             match mode {
                 "safety_loop" => {
                     watermark_safety(&g, &run.info).map_err(|e| e.1)?;
+                    loop_progress(&job, cfg, &g)?;
                     for (b, a, st) in stage_probe_ids(&job) {
                         if let TsStage::Reorder = st {
                             reorder_oracle(&g, b, a)?;
@@ -578,7 +635,7 @@ pub fn def() -> CheckDef {
     CheckDef {
         id: "C06",
         level: "exploration",
-        rule: "random timestamped jobs: 1-5 scripted source replicas whose scripts respect the watermark contract (out-of-order within the bound, replicas without watermarks / without data / ending early, explicit FlushBatch), then 1-6 stages out of map, filter, flat_map, shuffle, group_by, replication(One), batch_mode, reorder, fold, keyed fold, count window, event-time window, merge / zip with a second scripted source, drop_timestamps; 2 deployments each; oracle at every probe of every replica, per iteration: after Watermark(t) no element with timestamp <= t and no watermark <= t; non-trivial = some probe saw >= 2 watermarks and the deployment has >= 2 replicas; distinct = hash of (job, configuration); mode loop: the stages (map, filter, flat_map, shuffle, group_by, batch_mode, reorder, keyed fold, event-time window) are the body of replay(2-4 rounds) over the scripted source, whose timestamped script the loop head replays every round - same oracle per round at every probe of the body, non-trivial additionally needs >= 2 rounds observed",
+        rule: "random timestamped jobs: 1-5 scripted source replicas whose scripts respect the watermark contract (out-of-order within the bound, replicas without watermarks / without data / ending early, explicit FlushBatch), then 1-6 stages out of map, filter, flat_map, shuffle, group_by, replication(One), batch_mode, reorder, fold, keyed fold, count window, event-time window, merge / zip with a second scripted source, drop_timestamps; 2 deployments each; oracle at every probe of every replica, per iteration: after Watermark(t) no element with timestamp <= t and no watermark <= t; non-trivial = some probe saw >= 2 watermarks and the deployment has >= 2 replicas; distinct = hash of (job, configuration); mode loop: the stages (map, filter, flat_map, shuffle, group_by, batch_mode, reorder, keyed fold, event-time window) are the body of replay(2-4 rounds) over the scripted source, whose timestamped script the loop head replays every round - same oracle per round at every probe of the body, plus progress across rounds (when every source replica of the deployment has a script with watermarks, every replica behind the first repartitioning of the body observes at least one watermark in every round); non-trivial additionally needs >= 2 rounds observed",
         assumptions: &["arrival interleavings at multi-input blocks are sampled here and owned (lock-step) in C17's frontier model check"],
         modes: |t| vec![("main", t.pick(8, 12)), ("loop", t.pick(4, 6)), ("kf", 1)],
         run,
